@@ -16,6 +16,8 @@ CONSTANTS
   MaxPkt = 2
   MaxHist = 6
   MaxLoopsPerCont = 2
+  SCRIPT <- NoScript
+  FOREIGN = FALSE
   NormC <- MCNormC
   ValidC <- MCValidC
   NormN <- MCNormN
